@@ -93,6 +93,15 @@ type authState interface {
 	identityString() string
 }
 
+func (s authStateAwaitingSig) receiveDHCommitMessage(c *Conversation, msg []byte) (authState, messageWithHeader, error) {
+	// a commit that cannot be read must not end the exchange we are in
+	if err := new(dhCommit).deserialize(msg); err != nil {
+		return s, nil, err
+	}
+
+	return s.authStateBase.receiveDHCommitMessage(c, msg)
+}
+
 func (authStateBase) receiveDHCommitMessage(c *Conversation, msg []byte) (authState, messageWithHeader, error) {
 	return authStateNone{}.receiveDHCommitMessage(c, msg)
 }
